@@ -117,7 +117,7 @@ CHECKS["C19"] = {
     "technique": "rapid-generated traffic patterns over 1..3 sessions x 1..4 connections x 1..4 streams of one limited user (valve obtained through userPanel.GetUser / ActiveUser.GetSession), free-running on the synctest virtual clock; every interval between two wire events is checked against the token-bucket bound in O(n)",
     "level_text": "Time is virtual, so every send/receive event has an exact timestamp; for every pair of events (a,b) the bytes in [a,b] must be <= 1.01*rate*(b-a) + one second of burst + one message, across all sessions and connections of the user; backlogged senders must reach >= 0.99*rate*T minus burst/in-flight terms.",
     "level_note": "Upload direction is measured where data becomes readable on the server-side streams (payload bytes, after the limiter); download direction at the server's connection writes (the bytes the limiter counted). One writer per stream and direction.",
-    "rule": "rapid draws rates from 20 kB/s..10 MB/s, topology, 5..60 virtual seconds and 1..8 writers (size patterns 37 B..16132 B, backlogged or bursty with pauses). Non-trivial = connections of >=2 sessions sent within the same virtual second; distinct = distinct scenarios.",
+    "rule": "rapid draws rates from 1 kB/s..10 MB/s, topology, 5..60 virtual seconds and 1..8 writers (size patterns 37 B..16132 B, backlogged or bursty with pauses). Non-trivial = connections of >=2 sessions sent within the same virtual second; distinct = distinct scenarios.",
     "assumptions": ["juju/ratelimit runs on the bubble's virtual clock (time.Now/time.Sleep)", "the bound includes one maximal message because a wire write is atomic"],
     "jobs": [
         {"pkg": SERVER, "run": "^TestVerif_C19_Rates$", "checks": {"quick": 100, "thorough": 8000}, "shards": {"thorough": 16}, "timeout": {"quick": 300}},
